@@ -79,11 +79,17 @@ class Facts:
         c = self.sess[sid]['client']
         if c is None:
             return None
+        done = []
         for u in c.upgrades:
             got = [d for (_, _, d) in u['conn'].recv_s]
             if got[:2] == ['2probe', '5']:
-                return u['conn']
-        return None
+                done.append(u['conn'])
+        # (when attempts overlapped, the server lets the first one that it
+        # finished processing win: that is the socket it went on to use)
+        for conn in done:
+            if any(d != '3probe' for (_, _, d) in conn.sent_s):
+                return conn
+        return done[0] if done else None
 
     # -- end causes ------------------------------------------------------------
     def causes(self, sid):
@@ -1319,13 +1325,17 @@ def check_upgrade(h, f=None):
                 conn = u['conn']
                 if conn is okc or conn.req.seq_arrive is None:
                     continue
-                if conn.req.seq_arrive > first_ok and conn.sent_s:
+                # (an attempt that overlaps the winning one may get as far
+                # as 3probe; it must never carry the session as well)
+                if conn.req.seq_arrive > first_ok and \
+                        any(d != '3probe' for _, _, d in conn.sent_s) and \
+                        any(d != '3probe' for _, _, d in okc.sent_s):
                     out.append(V('second-upgrade-refused',
                                  '%s|second-upgrade-carried-packets' % impl,
-                                 'session %s: already upgraded, yet a '
-                                 'second upgrade socket carried %r' % (
-                                     sid, [d for _, _, d in conn.sent_s][:3]
-                                 )))
+                                 'session %s: two upgrade sockets carried '
+                                 'the session: %r and %r' % (
+                                     sid, [d for _, _, d in okc.sent_s][:3],
+                                     [d for _, _, d in conn.sent_s][:3])))
                 # (the refusal is handled in the instant the request
                 # arrives; a disconnect in that same instant is its doing)
                 if conn.req.seq_arrive > first_ok and not f.causes(sid) \
